@@ -1003,6 +1003,45 @@ def ensure_driver():
         raise InfraError("driver build failed (drv_c20):\n" + log[-3000:])
 
 
+def kwargs_marker_probe(ctx, rng):
+    """objects that carry find_peaks keyword options which EXCLUDE a peak (a narrow spike taller than the site peak, ruled out by `width`):
+    the drawn marker of the mean curve's peak must be the object's own mean_curve_peak() (implementation-side; the Lean model has no
+    excluding options)"""
+    import hvsrpy
+    import hvsrpy.postprocessing as pp
+    import matplotlib.pyplot as plt
+    for j in range(ctx.budget(6, 40)):
+        kind = "T" if j % 2 == 0 else "A"
+        freq = np.geomspace(0.2, 20, 60)
+        fs = float(rng.uniform(0.8, 1.5)); k_spike = int(rng.integers(40, 55))
+
+        def rows(nw):
+            out = []
+            for _ in range(nw):
+                r = 1.0 + 2.5 * np.exp(-0.5 * (np.log(freq / (fs * float(np.exp(rng.normal(0, 0.05))))) / 0.35) ** 2) + rng.uniform(0, 0.05, len(freq))
+                r[k_spike] = 6.0 + rng.uniform(0, 0.5)          # one-sample spike, taller than the site peak
+                out.append(r)
+            return np.array(out)
+        if kind == "T":
+            obj = hvsrpy.HvsrTraditional(freq, rows(int(rng.integers(4, 9))))
+        else:
+            obj = hvsrpy.HvsrAzimuthal([hvsrpy.HvsrTraditional(freq, rows(int(rng.integers(3, 6)))) for _ in range(2)], [0.0, 90.0])
+        obj.update_peaks_bounded(search_range_in_hz=(None, None), find_peaks_kwargs=dict(width=3))
+        d = str(rng.choice(DISTS))
+        want = obj.mean_curve_peak(distribution=d)
+        r = pp.plot_single_panel_hvsr_curves(obj, distribution_mc=d, distribution_fn=d)
+        fig, ax = r if isinstance(r, tuple) else (plt.gcf(), r)
+        lines, _ = canon_axes(ax)
+        plt.close("all")
+        marks = [a for a in lines if a[0] == "peakMeanCurve"]
+        ctx.supporting["excluding_kwargs_marker_cases"] = ctx.supporting.get("excluding_kwargs_marker_cases", 0) + 1
+        ok = len(marks) == 1 and marks[0][1] == [float(want[0])] and marks[0][2] == [float(want[1])]
+        if not ok:
+            ctx.violation(C_STATS, dict(what="mean-curve peak marker of an object with find_peaks_kwargs={'width': 3}", object_kind=kind, distribution=d,
+                                        drawn=[(m[1], m[2]) for m in marks], object_mean_curve_peak=[float(want[0]), float(want[1])],
+                                        spike_frequency=float(freq[k_spike])), seam="plot_single_panel_hvsr_curves")
+
+
 def run(ctx):
     import hvsrpy
     import hvsrpy.postprocessing as pp
@@ -1019,6 +1058,7 @@ def run(ctx):
                     "postprocessing.DEFAULT_KWARGS (checked to be pairwise distinguishable; fallback table in harness/c20.py)"]
     rng = np.random.default_rng(ctx.seed)
     clash = load_style_tables(pp)
+    kwargs_marker_probe(ctx, np.random.default_rng(ctx.seed + 20))
     if clash:
         ctx.violation(C_DRAW, dict(what="style dictionaries make artist classes indistinguishable", classes=clash), found_input=False,
                       seam="hvsrpy.postprocessing.DEFAULT_KWARGS")
